@@ -1,6 +1,6 @@
-SPECIFICATION Spec
-CONSTANTS PairSrc = "all" CtxU = "mid" MaxFlow = 0 KeyU = "six"
-INVARIANT KeyCharacterises
-INVARIANT ProjIsPart
-INVARIANT OwnerIsLongest
+SPECIFICATION RSpec
+CONSTANTS PairSrc = "all" CtxU = "full" MaxFlow = 0 KeyU = "six"
+INVARIANT KeyCharStep
+INVARIANT ProjPartStep
+INVARIANT OwnerStep
 CHECK_DEADLOCK FALSE
